@@ -3,8 +3,47 @@
 //   server <k> <decl…>   select server type k (decl = the declaration value given to the model; checked)
 //   table                the real attribute table: "<handle>:<uuid16>:<access result>:<value>" per attribute
 //   pdu <mtu> <hex>      l2cap_input() on a fresh connection with client MTU <mtu>; prints the response
+//   topserver <k>        select a hand-written server whose last attribute has handle 0xFFFF (k = 0, 2)
+//                        or 0xFFFE (k = 1, 3: controls); these have no model counterpart (the model's
+//                        ServerDecl.WF excludes them: the templates' uint16_t end_handle wraps to 0)
 #define VERIF_ATT_WITH_PDU
 #include "atthandles/server_if.hpp"
+
+namespace top {
+    static std::uint8_t v0 = 0x11, v1 = 0x22;
+    template < std::uint16_t ServiceHandle >
+    struct svc_at {
+        typedef bluetoe::server<
+            bluetoe::no_gap_service_for_gatt_servers,
+            bluetoe::max_mtu_size< 300 >,
+            bluetoe::service< bluetoe::service_uuid16< 0x1800 >,
+                bluetoe::characteristic< bluetoe::characteristic_uuid16< 0x2A00 >, bluetoe::bind_characteristic_value< std::uint8_t, &v0 > > >,
+            bluetoe::service< bluetoe::service_uuid16< 0x1802 >, bluetoe::attribute_handle< ServiceHandle >,
+                bluetoe::characteristic< bluetoe::characteristic_uuid16< 0x2A01 >, bluetoe::bind_characteristic_value< std::uint8_t, &v1 > > > > type;
+    };
+    template < std::uint16_t CharHandle >
+    struct char_at {
+        typedef bluetoe::server<
+            bluetoe::no_gap_service_for_gatt_servers,
+            bluetoe::max_mtu_size< 300 >,
+            bluetoe::service< bluetoe::service_uuid16< 0x1800 >,
+                bluetoe::characteristic< bluetoe::characteristic_uuid16< 0x2A00 >, bluetoe::bind_characteristic_value< std::uint8_t, &v0 > > >,
+            bluetoe::service< bluetoe::service_uuid16< 0x1802 >,
+                bluetoe::characteristic< bluetoe::characteristic_uuid16< 0x2A01 >, bluetoe::bind_characteristic_value< std::uint8_t, &v1 >,
+                    bluetoe::attribute_handle< CharHandle > > > > type;
+    };
+    static std::unique_ptr< verif::server_if > make( unsigned long long k )
+    {
+        switch ( k )
+        {
+        case 0: return std::unique_ptr< verif::server_if >( new verif::server_impl< svc_at< 0xFFFD >::type >( "" ) );   // handles 1,2,3,FFFD,FFFE,FFFF
+        case 1: return std::unique_ptr< verif::server_if >( new verif::server_impl< svc_at< 0xFFFC >::type >( "" ) );   // … FFFC,FFFD,FFFE (control)
+        case 2: return std::unique_ptr< verif::server_if >( new verif::server_impl< char_at< 0xFFFE >::type >( "" ) );  // 1,2,3,4,FFFE,FFFF
+        case 3: return std::unique_ptr< verif::server_if >( new verif::server_impl< char_at< 0xFFFD >::type >( "" ) );  // 1,2,3,4,FFFD,FFFE (control)
+        }
+        return std::unique_ptr< verif::server_if >();
+    }
+}
 
 int main()
 {
@@ -12,6 +51,15 @@ int main()
     return verif::line_loop( [&]( const std::vector< std::string >& w ) -> std::string {
         if ( w.empty() ) return "bad-op";
         if ( w[ 0 ] == "server" ) return verif::select_server( w, s );
+        if ( w[ 0 ] == "topserver" && w.size() == 2 )
+        {
+            unsigned long long k = 0;
+            if ( !verif::parse_u64( w[ 1 ], k ) ) return "bad-op";
+            auto n = top::make( k );
+            if ( !n ) return "bad-op";
+            s = std::move( n );
+            return "ok " + std::to_string( s->n_attrs() );
+        }
         if ( w[ 0 ] == "table" && w.size() == 1 )
         {
             std::string out;
